@@ -51,10 +51,13 @@ def run(tier, seed, replay=None):
     budget = 20 if tier == 'quick' else 600
     t0 = time.time()
     total = 0; races = 0; runs = []
-    confs = [(m, g) for m in ('shared', 'sharedinput', 'own', 'mixed') for g in ((2, 8, 32) if tier == 'quick' else (2, 4, 8, 16, 32))]
+    confs = [(m, g) for g in ((8, 2, 32) if tier == 'quick' else (8, 2, 4, 16, 32)) for m in ('mixed', 'shared', 'sharedinput', 'own')]
+    seen_modes = set()
     for mode, gor in confs:
-        if time.time() - t0 > budget:
-            break
+        # every mode runs at least once whatever the time budget
+        if time.time() - t0 > budget and mode in seen_modes:
+            continue
+        seen_modes.add(mode)
         spec = {'programs': progs, 'goroutines': gor, 'iterations': 6 if tier == 'quick' else 40, 'mode': mode}
         p = subprocess.run([race], input=json.dumps(spec), capture_output=True, text=True, env=dict(os.environ, GORACE='halt_on_error=0'), timeout=900)
         nr = p.stderr.count('WARNING: DATA RACE')
